@@ -26,7 +26,7 @@ opkinds! {
     VToTup = 4, "VToTup";             // v.into_tuple()
     ArrToTup = 5, "ArrToTup";         // harness only
     TupToArr = 6, "TupToArr";         // harness only
-    FromIterStub = 7, "FromIterStub"; // Arr -> V::from_iter(stub source); a = source mode (0 exact, 1 early EOF, 2 surplus, 3 panics, 4 not fused: one None then more), b = j | hint<<8, f = default-panic k
+    FromIterStub = 7, "FromIterStub"; // Arr -> V::from_iter(stub source); a = source mode (0 exact, 1 early EOF, 2 surplus, 3 panics, 4 not fused: one None then more, 5 size_hint() panics, 6 the source's Drop panics), b = j | hint<<8, f = default-panic k
     VDefault = 8, "VDefault";         // * -> V::default(); f = default-panic k
     VIntoIter = 9, "VIntoIter";       // a = 0 v.into_iter() (method syntax) | 1 IntoIterator::into_iter(v) (what a for loop does)
     // ---- on a vector value ----
@@ -34,8 +34,10 @@ opkinds! {
     SliceSwap = 11, "SliceSwap";       // a = route, b = i | j<<8
     SliceReplace = 12, "SliceReplace"; // a = route, b = i
     VObserve = 13, "VObserve";         // a = Debug|Hash|Eq|Display, f = observe-panic k
-    VMap = 14, "VMap";                 // a = 0 map(f) | 1 zip(w).map(f) | 2 map2(w, f), identity-like f; f = closure-panic k
-    VClone = 16, "VClone";             // let c = v.clone(); drop(c)  (derive(Clone) on the container; f = panic in the f-th element clone)
+    VMap = 14, "VMap";                 // a = 0 map(f) | 1 zip(w).map(f) | 2 map2(w, f) | 3 map3(w, u, f), identity-like f; f = closure-panic k
+    VReduce = 17, "VReduce";           // v.reduce(f): a = 0 the closure keeps the accumulator | 1 keeps the new element; f = closure-panic k; terminal
+    VKindConv = 18, "VKindConv";       // a = which composed kind / size conversion (adapters::KcSpec), ending in the same type
+    VClone = 16, "VClone";             // a = 0: let c = v.clone(); drop(c) | 1: w.clone_from(&v); drop(w)  (derive(Clone) on the container; f = panic in the f-th element clone)
     VFromSlice = 15, "VFromSlice";     // V::<u32>::from_slice(&s[..a]) (Copy elements: order and default fill only)
     // ---- on the consuming iterator ----
     Next = 20, "Next";                 // b = 1 keep in bag, 0 drop at once
@@ -44,13 +46,13 @@ opkinds! {
     NthBack = 23, "NthBack";
     Len = 24, "Len";
     SizeHint = 25, "SizeHint";
-    Observe = 26, "Observe";           // a = 0 Debug, 1 Hash, 2 Eq(self), 3 Eq(twin), 4 Ne(twin), 5 Debug alternate ({:#?}); f = observe-panic k, b = sink failure at write b
+    Observe = 26, "Observe";           // a = 0 Debug, 1 Hash, 2 Eq(self), 3 Eq(twin), 4 Ne(twin), 5 Debug alternate ({:#?}); f = observe-panic k, b = sink failure (a = 0, 5) / hasher panic (a = 1) at write b
     TakeCount = 27, "TakeCount";       // it.by_ref().take(a).count(); f = drop-panic k
     RevTakeDrop = 28, "RevTakeDrop";   // it.by_ref().rev().take(a).for_each(drop); f = drop-panic k
     BagDrop = 29, "BagDrop";           // caller destroys a previously yielded element
     TwinMake = 30, "TwinMake";         // fresh second iterator, a pulled from front, b from back
     SwapTwin = 19, "SwapTwin";         // mem::swap(&mut it, &mut twin): both iterators change address, each must keep its own elements
-    CloneProbe = 31, "CloneProbe";     // capability probes: a = 0 it.clone() iff Clone | 1 it.partial_cmp(it) iff PartialOrd | 2 it.as_ref() iff AsRef<[T]> | 3 It::default() iff Default
+    CloneProbe = 31, "CloneProbe";     // capability probes: a = 0 it.clone() iff Clone | 1 it.partial_cmp(it) iff PartialOrd | 2 it.as_ref() iff AsRef<[T]> | 3 It::default() iff Default; f = panic in the f-th element clone / comparison / default
     ItCollect = 32, "ItCollect";       // It -> V; a = 0 collect, 1 rev().collect(), 2 skip(b).collect(); f = default-panic k
     Exhaust = 33, "Exhaust";           // for x in it.by_ref() { bag.push(x) }
     NextIntoInner = 34, "NextIntoInner"; // nested: pull one row/column vector and start an inner iterator on it
@@ -85,6 +87,7 @@ opkinds! {
     MTakeLines = 73, "MTakeLines";     // M -> its public `rows` / `cols` vector-of-vectors (then vector ops apply)
     MMapRows = 74, "MMapRows";         // map_rows / map_cols with an identity closure that may panic (f)
     MClone = 76, "MClone";             // let c = m.clone(); drop(c); f = panic in the f-th element clone
+    MShrink = 77, "MShrink";           // truncating conversion to a smaller matrix type (a = which), result checked and dropped; terminal
     MObserve = 75, "MObserve";         // a = Debug|Hash|Eq|Display on the matrix, f = observe-panic k
 }
 
